@@ -1588,12 +1588,12 @@ def _conditional_control_facts(repo, ccf):
 
 
 WITNESSES = [
-    dict(name="valve-companion-loses-the-priority", file=CORE, old="                    new_control = type(control)(condition, new_action, priority=control.priority)\n                    valve_controls.append(new_control)",
-         new="                    new_control = type(control)(condition, new_action)\n                    valve_controls.append(new_control)", rule="R-C05-8"),
-    dict(name="pump-companion-is-always-a-simple-control", file=CORE, old="                    new_control = type(control)(condition, new_action, priority=control.priority)\n                    pump_controls.append(new_control)",
-         new="                    new_control = Control(condition, new_action, priority=control.priority)\n                    pump_controls.append(new_control)", rule="R-C05-8"),
-    dict(name="valve-companion-priority-through-a-temporary-preserving", file=CORE, old="                    new_control = type(control)(condition, new_action, priority=control.priority)\n                    valve_controls.append(new_control)",
-         new="                    prio = control.priority\n                    new_control = type(control)(condition, new_action, priority=prio)\n                    valve_controls.append(new_control)", silent=True),
+    dict(name="valve-companion-loses-the-priority", file=CORE, old="                        new_control = type(control)(condition, new_action, priority=control.priority)\n                    valve_controls.append(new_control)",
+         new="                        new_control = type(control)(condition, new_action)\n                    valve_controls.append(new_control)", rule="R-C05-8"),
+    dict(name="pump-companion-is-always-a-simple-control", file=CORE, old="                        new_control = type(control)(condition, new_action, priority=control.priority)\n                    pump_controls.append(new_control)",
+         new="                        new_control = Control(condition, new_action, priority=control.priority)\n                    pump_controls.append(new_control)", rule="R-C05-8"),
+    dict(name="valve-companion-priority-through-a-temporary-preserving", file=CORE, old="                        new_control = type(control)(condition, new_action, priority=control.priority)\n                    valve_controls.append(new_control)",
+         new="                        prio = control.priority\n                        new_control = type(control)(condition, new_action, priority=prio)\n                    valve_controls.append(new_control)", silent=True),
     # (the isolated head is the elevation since the datum fix, so `node._head - node.elevation` is 0 again: that edit is now the silent variant below)
     dict(name="isolated-junction-pressure-is-its-head", file="wntr/sim/hydraulics.py", old="            node._pressure = 0\n", new="            node._pressure = node._head\n", rule="R-C05-7"),
     dict(name="isolated-junction-pressure-not-reported-as-zero", file="wntr/sim/hydraulics.py", old="            node_res['pressure'][name].append(0.0)\n        else:", new="            node_res['pressure'][name].append(node.head)\n        else:", rule="R-C05-7"),
